@@ -22,7 +22,6 @@ import (
 	"runtime"
 	"sort"
 	"strings"
-	"sync"
 	"time"
 
 	"golang.org/x/crypto/blake2b"
@@ -574,9 +573,11 @@ func DecodeOut(era int, o Out) (common.TransactionOutput, error) {
 }
 
 // AddUtxo registers an unspent output. The output is decoded by the real decoder of the
-// given era (UTxOs carry over between eras, so callers may use an older era).
+// given era (UTxOs carry over between eras, so callers may use an older era). Every state
+// decodes its own outputs: no decoded value (and so no *big.Int / MultiAsset the rules could
+// write to) is ever shared between two states or two parallel evaluations.
 func (s *StubState) AddUtxo(era int, in In, o Out) error {
-	out, err := decodeOutCached(era, o)
+	out, err := DecodeOut(era, o)
 	if err != nil {
 		return err
 	}
@@ -752,28 +753,61 @@ func names(rr []RuleResult) []string {
 	return o
 }
 
-// decoded outputs are immutable for the rules, so equal (era, bytes) pairs share one decoded value
-var (
-	outCacheMu sync.Mutex
-	outCache   = map[string]common.TransactionOutput{}
-)
+// ---- purity of validation ----
 
-func decodeOutCached(era int, o Out) (common.TransactionOutput, error) {
-	k := fmt.Sprintf("%d|%x", era, OutNode(era, o).Encode())
-	outCacheMu.Lock()
-	v, ok := outCache[k]
-	outCacheMu.Unlock()
-	if ok {
-		return v, nil
+// Dump is a canonical rendering of everything the state hands out to the rules that they could
+// write to: per UTxO (sorted by id) the address, the coin and every (policy, name, quantity),
+// read back through the output's accessors. Comparing the dump before and after validation
+// shows whether validation wrote into the ledger state.
+func (s *StubState) Dump() string {
+	keys := make([]string, 0, len(s.Utxos))
+	for k := range s.Utxos {
+		keys = append(keys, k)
 	}
-	v, err := DecodeOut(era, o)
-	if err != nil {
-		return nil, err
+	sort.Strings(keys)
+	var sb strings.Builder
+	for _, k := range keys {
+		o := s.Utxos[k].Output
+		fmt.Fprintf(&sb, "%s addr=%x coin=%v", k, addrBytes(o), o.Amount())
+		if as := o.Assets(); as != nil {
+			var ents []string
+			for _, p := range as.Policies() {
+				for _, n := range as.Assets(p) {
+					ents = append(ents, fmt.Sprintf("%x.%x=%v", p[:], n, as.Asset(p, n)))
+				}
+			}
+			sort.Strings(ents)
+			fmt.Fprintf(&sb, " assets=%v", ents)
+		}
+		sb.WriteString("\n")
 	}
-	outCacheMu.Lock()
-	if len(outCache) < 100000 {
-		outCache[k] = v
+	var regs []string
+	for k, v := range s.RegStake {
+		regs = append(regs, fmt.Sprintf("stake %x=%v reward=%d", k[:], v, s.Rewards[k]))
 	}
-	outCacheMu.Unlock()
-	return v, nil
+	for k, v := range s.Pools {
+		regs = append(regs, fmt.Sprintf("pool %x=%v", k[:], v))
+	}
+	for k, v := range s.DReps {
+		regs = append(regs, fmt.Sprintf("drep %x=%d", k[:], v))
+	}
+	sort.Strings(regs)
+	sb.WriteString(strings.Join(regs, "\n"))
+	return sb.String()
+}
+
+func addrBytes(o common.TransactionOutput) []byte {
+	a := o.Address()
+	b, _ := a.Bytes()
+	return b
+}
+
+// Signature renders the verdict of one evaluation (which rules rejected, with which error).
+func Signature(rr []RuleResult) string {
+	var o []string
+	for _, r := range rr {
+		o = append(o, fmt.Sprintf("%s: %v", r.Name, r.Err))
+	}
+	sort.Strings(o)
+	return strings.Join(o, " | ")
 }
